@@ -238,6 +238,13 @@ fn print_state<T: Smp>(r: &R<T>) {
         Resampler::input_frames_max(x), Resampler::input_frames_next(x), Resampler::output_frames_max(x),
         Resampler::output_frames_next(x), Resampler::output_delay(x), Resampler::nbr_channels(x)));
     println!("G {} {} {} {} {} {}", g.0, g.1, g.2, g.3, g.4, g.5);
+    // the object-safe wrapper must forward every size query unchanged (C16); silent when it does
+    let v = each!(r, x => (
+        VecResampler::input_frames_max(x), VecResampler::input_frames_next(x), VecResampler::output_frames_max(x),
+        VecResampler::output_frames_next(x), VecResampler::output_delay(x), VecResampler::nbr_channels(x)));
+    if v != g {
+        println!("GV MISMATCH {} {} {} {} {} {}", v.0, v.1, v.2, v.3, v.4, v.5);
+    }
     match r {
         R::FastIn(x) => {
             println!("{}", state_line(&x.verif_state(), &[1, 2, 3]));
